@@ -341,6 +341,11 @@ func (q *queue) Deliver(id string, blocks []*nom.DetailedMomentum) (err error) {
 			errs = append(errs, fmt.Errorf("non-requested block %x", hash))
 			continue
 		}
+		// The height decides where the block goes and whether the hash chain is valid: only trust it if the hash commits to it
+		if block.ComputeHash() != hash {
+			errs = append(errs, fmt.Errorf("block %x does not match its hash", hash))
+			continue
+		}
 		// If a requested block falls out of the range, the hash chain is invalid
 		index := int(int64(block.Height) - int64(q.blockOffset))
 		if index >= len(q.blockCache) || index < 0 {
